@@ -2,7 +2,9 @@
 (* Behaviour generation from Vec.tla.  Focused next-state relations keep   *)
 (* the branching factor on what each property quantifies over.             *)
 EXTENDS Vec, Json
-CONSTANT Depth
+CONSTANTS Depth,
+          InitLens,   \* lengths of the initial contents (appended before anybody subscribes)
+          PreSubs     \* numbers of subscribers that exist from the start (1: plain; 2: plain + batched)
 View == core
 Bound == Len(hist) <= Depth
 BoundTree == Len(hist) <= Depth + 1
@@ -34,4 +36,41 @@ SpecAll == Init /\ [][NextAll]_vars
 (* C17: all indices incl. out of range, entry traversal decisions, no subscribers needed *)
 NextMut == MutNext \/ EntriesNext \/ TxnNext \/ (\E k \in {0, 1} : Subscribe(1, k)) \/ Poll(1, 0)
 SpecMut == Init /\ [][NextMut]_vars
+(* Start from a non-empty vector with subscribers already attached: deep   *)
+(* transaction / stream scenarios become reachable within a small depth.   *)
+PInit ==
+    /\ \E n0 \in InitLens, c \in Caps, k \in PreSubs :
+          /\ cap = c /\ vals = [j \in 1..n0 |-> j] /\ fresh = n0 + 1
+          /\ subs = 1..k
+          /\ hist = <<[op |-> "New", t |-> "v", s |-> 0, i |-> c, v |-> 0, vs |-> [j \in 1..n0 |-> j], k |-> k]>>
+    /\ alive = TRUE /\ txn = NoTxn /\ chan = <<>>
+    /\ sflav = [s \in SubIds |-> IF s = 2 THEN "batched" ELSE "plain"]
+    /\ snext = [s \in SubIds |-> 0] /\ srest = [s \in SubIds |-> <<>>]
+    /\ replica = [s \in SubIds |-> vals] /\ gmsgs = [s \in SubIds |-> <<>>]
+    /\ cands = [s \in SubIds |-> {<<0, FALSE>>}]
+    /\ armed = [s \in SubIds |-> FALSE] /\ owed = {}
+    /\ ret = RNil /\ out = <<>>
+
+(* small transaction bodies; every prefix committed, dropped or rolled back; polled afterwards *)
+TxnBodyOp ==
+    \/ PushBack("t", fresh) \/ PushFront("t", fresh) \/ PopFront("t") \/ PopBack("t") \/ Clear("t")
+    \/ \E i \in {0, 1} : Insert("t", i, fresh) \/ SetAt("t", i, fresh, "Set") \/ RemoveIdx("t", i, "Remove") \/ Truncate("t", i)
+    \/ \E d \in {1, 2, 3} : Entries("t", 0, <<d>>)
+NextTxnSmall ==
+    \/ txn.open /\ (TxnBodyOp \/ TxnCommit \/ TxnDrop \/ TxnRollback)
+    \/ ~txn.open /\ (TxnBegin \/ PushBack("v", fresh) \/ PopFront("v") \/ (\E s \in SubIds : Poll(s, 0) \/ Poll(s, 1)))
+SpecTxnSmall == PInit /\ [][NextTxnSmall]_vars
+
+(* deeper bodies over a core of operations (emptying, clearing, refilling) *)
+TxnCoreOp ==
+    \/ PushBack("t", fresh) \/ PopFront("t") \/ PopBack("t") \/ Clear("t") \/ Truncate("t", 0)
+    \/ SetAt("t", 0, fresh, "Set") \/ Entries("t", 0, <<2>>)
+NextTxnCore ==
+    \/ txn.open /\ (TxnCoreOp \/ TxnCommit \/ TxnDrop \/ TxnRollback)
+    \/ ~txn.open /\ (TxnBegin \/ (\E s \in SubIds : Poll(s, 0)))
+SpecTxnCore == PInit /\ [][NextTxnCore]_vars
+
+(* streams from a pre-populated vector: every mutator, lag, drop *)
+SpecStreamsPre == PInit /\ [][NextStreams]_vars
+
 =============================================================================
